@@ -263,6 +263,11 @@ fn boundary_case(case: u64, part: u64, stride: u64) -> CaseOut {
             toks.push(format!("lab{}", s));
         }
     }
+    // more digits than any integer type holds, then a character that makes the token a label
+    for t in ["xfffffffffg", "Xf2f7fB7A0GFx2", "b1000000000000000000000000000000000_t", "o77777777777777777777z", "x123456789abcdefQ", "b" ] {
+        toks.push(t.to_string());
+        toks.push(format!("{}+1", t));
+    }
     let mut evals = 0;
     for (ti, t) in toks.iter().enumerate() {
         if ti as u64 % stride != part % stride {
